@@ -25,7 +25,7 @@ EXTENDS Img
 CONSTANTS Format,            \* "CM3" | "VEF"
           W,                 \* bytes per line / record (160; 80 or 40)
           NLines,            \* lines per page (192) / records (400)
-          VefType, PalSet, Vals, Strategies, Pages, Motifs
+          VefType, PalSet, Vals, Strategies, Pages, Motifs, Kinds
 VARIABLES img, out, prev, lines, page, done, pal, pages, motifs
 vars == <<img, out, prev, lines, page, done, pal, pages, motifs>>
 
@@ -109,7 +109,7 @@ NextPage == /\ ~done /\ lines = NLines /\ page < pages /\ page' = page + 1 /\ li
             /\ UNCHANGED <<img, out, prev, done, pal, pages, motifs>>
 Finish == /\ ~done /\ lines = NLines /\ page = pages /\ done' = TRUE
           /\ UNCHANGED <<img, out, prev, lines, page, pal, pages, motifs>>
-Next == \/ \E kind \in Contents, v1 \in Vals, v2 \in Vals, k \in {1, 2, W \div 2, W - 1, W}, s \in Strategies : AddLine(kind, v1, v2, k, s)
+Next == \/ \E kind \in Contents \cap Kinds, v1 \in Vals, v2 \in Vals, k \in {1, 2, W \div 2, W - 1, W}, s \in Strategies : AddLine(kind, v1, v2, k, s)
         \/ NextPage \/ Finish
 Spec == Init /\ [][Next]_vars
 
